@@ -238,6 +238,19 @@ pub fn resolve_fn(idx: &Index, reg: &Registry, cur: &FnEntry, ty: Option<&str>, 
 /// `quals`: the path segments before the name (module qualifiers); each one that is not a crate/self
 /// keyword has to occur in the candidate's own path
 pub fn resolve_fn_q(idx: &Index, reg: &Registry, cur: &FnEntry, ty: Option<&str>, name: &str, lenient: bool, quals: &[String]) -> Option<usize> {
+    // an unqualified name that no function of the crates has, but that a renaming import of the calling function's
+    // module introduces (`use crate::slice::eq_bytes as eq_slice_u8;`): the function at exactly the imported path
+    if ty.is_none() && quals.is_empty() && !idx.fn_by_name.contains_key(name) {
+        let full = idx.use_renames.get(&(cur.module.clone(), name.to_string()))?;
+        let krate = cur.module.split("::").next().unwrap_or("");
+        let mut segs: Vec<&str> = full.iter().map(|s| s.as_str()).collect();
+        if segs.first() == Some(&"crate") {
+            segs[0] = krate;
+        }
+        let path = segs.join("::");
+        let hits: Vec<usize> = (0..idx.fns.len()).filter(|i| idx.fns[*i].path == path && idx.fns[*i].self_ty.is_none() && reg.fns.contains_key(i)).collect();
+        return if hits.len() == 1 { Some(hits[0]) } else { None };
+    }
     let cands: Vec<usize> = idx
         .fn_by_name
         .get(name)?
